@@ -1,8 +1,9 @@
 INIT GenInit
 NEXT GenNext
 CONSTANTS
-  Goroutines = {2, 16, 64}
-  Ops = {250}
+  Goroutines = {2, 8, 32, 64}
+  Calls = {3000}
+  Reps = {1, 2}
   Shared = {0, 3}
   MixNames = {"create", "log", "balanced"}
   Closers = {TRUE, FALSE}
